@@ -536,6 +536,36 @@ def dev_run(unit, units, cap=6):
     print('log:', os.path.join(outdir, 'dev.log'))
 
 
+def vacuity_check(unit, units):
+    """guard (b) of DESIGN 3.4: with the precondition assumed and the function executed, the end of the harness must be REACHABLE
+    (an assertion `false` there must fail).  Small capacity, SAT.  Returns (ok, message)."""
+    if 'harness' in unit['sections'] or unit.get('kind') == 'stub':
+        return True, 'custom harness: not checked'
+    outdir = os.path.join(WORK, 'vacuity', unit['name'])
+    shutil.rmtree(outdir, ignore_errors=True)
+    u = dict(unit)
+    cap = unit.get('cap', '4')
+    try:
+        if unit.get('unwind'):
+            u['sections'] = {k: v for k, v in unit['sections'].items() if not k.startswith('loop ')}
+            b = build_c(u, units, outdir, defines=['#define CAP %s' % cap, '#define BOUNDED 1', '#define SHIM_IMPL 1', '#define VACUITY 1'])
+        else:
+            b = build_c(u, units, outdir, defines=['#define CAP %s' % cap, '#define BOUNDED 1', '#define VACUITY 1'])
+    except (ExtractionBreak, specmod.SpecError) as e:
+        return False, 'build failed: %s' % e
+    inst, err = instrument(u, units, b, outdir)
+    if err:
+        return False, err[:300]
+    flags = [f for f in check_flags(unit) if not f.endswith('-check')]
+    r = run_cbmc(inst['gb'], flags, [], 600, props=[b['harness'] + '.assertion.1'])
+    st = r['results'].get(b['harness'] + '.assertion.1', (None, ''))[0]
+    if st == 'FAILURE':
+        return True, 'end of harness reachable'
+    if st == 'SUCCESS':
+        return False, 'VACUOUS: the end of the harness is unreachable (contradictory precondition or the function never returns)'
+    return True, 'no verdict (%s)' % r['verdict']
+
+
 def verify_unit(unit, units, tier='quick', jobs=4, log=None):
     """full pipeline for one unit; returns result dict"""
     name = unit['name']
@@ -619,6 +649,12 @@ def verify_unit(unit, units, tier='quick', jobs=4, log=None):
                 return res
             res['status'] = 'proved'
             res['samples'] = sample_obligations(results)
+            if tier == 'thorough':
+                ok, msg = vacuity_check(unit, units)
+                res['vacuity'] = msg
+                if not ok:
+                    res['status'] = 'undecided'
+                    res['reason'] = msg
             return res
         bad = [k for k, v in results.items() if v[0] == 'FAILURE']
         if r['verdict'] == 'refuted' and bad:
